@@ -87,3 +87,18 @@ pub fn verif_wait_blocking(cell: &ActorCell) {
 pub fn verif_signal_taken(cell: &ActorCell) -> bool {
     cell.inner.signal.lock().unwrap().is_none()
 }
+
+/// construct a named cell the way every spawn does; the cell (and its ports) are leaked so that it stays registered.
+/// Ok(pid) or Err(true) for ActorAlreadyRegistered / Err(false) for any other error
+pub fn verif_new_cell(name: Option<String>) -> Result<u64, bool> {
+    match ActorCell::new::<Dummy>(name) {
+        Ok((cell, ports)) => {
+            let pid = cell.get_id().pid();
+            std::mem::forget(ports);
+            std::mem::forget(cell);
+            Ok(pid)
+        }
+        Err(SpawnErr::ActorAlreadyRegistered(_)) => Err(true),
+        Err(_) => Err(false),
+    }
+}
